@@ -28,6 +28,7 @@ ENGINES = {
     "ring": {
         "pkg": "./harness/ring",
         "instr": ["chord:1:node_state.go=2", "kv/memory:2", "kv/aof:1", "util/promise:1", "util/atomic:1"],
+        "osredirect": "kv/aof/*",
         "inject": {"chord/zz_verif_export.go": "inject/chord/zz_verif_export.go"},
         "real": ["chord/* (instrumented copy of the working tree)", "chord/remote.go + twirp client/server + chord.Server + spec/rpc error mapping",
                  "kv/memory (instrumented, every atomic/skipmap access a scheduling point)", "kv/aof + tidwall/wal logic as the store of about a third of the nodes in C03/C05/C10/C19 runs", "spec/chord retry wrapper (avast/retry-go, real)"],
@@ -39,6 +40,7 @@ ENGINES = {
 ENGINES["store"] = {
     "pkg": "./harness/store",
     "instr": ["kv/memory:2", "kv/aof:1", "kv/sqlite3:1", "util/atomic:1"],
+    "osredirect": "kv/aof/*",
     "inject": {},
     "real": ["kv/memory (instrumented: every atomic / skipmap access a scheduling point)", "kv/aof (instrumented) + tidwall/wal logic", "kv/sqlite3 + SQLite (WASM, ncruces) + its OS VFS, WAL mode, file locks, shared memory"],
     "stub": ["file system under tidwall/wal -> simfs in-memory disk with an operation log (os/io/ioutil imports redirected in a build-time copy of the module)",
@@ -49,6 +51,7 @@ ENGINES["store"] = {
 ENGINES["syncobj"] = {
     "pkg": "./harness/syncobj",
     "instr": ["chord:1:node_state.go=2", "util/bufconn:1", "spec/tun:1", "util/promise:2", "kv/memory:2", "kv/aof:1", "util/atomic:1"],
+    "osredirect": "kv/aof/*",
     "inject": {"chord/zz_verif_export.go": "inject/chord/zz_verif_export.go"},
     "real": ["chord/node_state.go (every atomic / skipmap access a scheduling point)", "spec/chord/retry.go + avast/retry-go", "spec/rpc framing (Send/Receive/BoundedReceive)",
              "util/bufconn (mutex and both condition variables emulated by the scheduler)", "spec/tun/pipe.go", "util/promise"],
